@@ -32,7 +32,7 @@ Strip(q, acc) ==
 RECURSIVE PostAll(_)
 PostAll(x) == IF x.db.outbox = <<>> THEN x ELSE PostAll(DoDeleteHead(DoSendHead(x)))
 
-KnownKinds == {"checkin", "commit", "eval", "acc", "apol", "result"}
+KnownKinds == {"checkin", "commit", "eval", "eval2", "old", "acc", "apol", "result"}
 Evaluable(x, what, h) ==
     CASE what = "sync"  -> x.db.sync < h /\ h = x.head /\ Len(x.blocks) >= h + 1
       [] what = "post"  -> \A i \in DOMAIN x.db.outbox : x.db.outbox[i].k \in KnownKinds
@@ -96,6 +96,7 @@ TNext ==
               /\ w' = Resync(w, line)
          [] line.k = "fin" ->
               /\ viol' = viol \cup (IF C08_Final(line.st, line.twin) THEN {} ELSE {<<l, "C08_Final">>})
+                              \cup (IF C08_Delivered(line.st) THEN {} ELSE {<<l, "C08_Delivered">>})
                               \cup (IF C08_SameKey(line.keys) THEN {} ELSE {<<l, "C08_SameKey">>})
               /\ UNCHANGED <<w, drift>>
          [] OTHER -> UNCHANGED <<w, viol, drift>>
